@@ -2795,7 +2795,7 @@ func (d *decoderMsgpackBytes) decodeBytesInto(out []byte, mustFit bool) (v []byt
 func (d *decoderMsgpackBytes) rawBytes() (v []byte) {
 
 	v = d.d.nextValueBytes()
-	if d.bytes && !d.h.ZeroCopy {
+	if !(d.bytes && d.h.ZeroCopy) {
 		vv := make([]byte, len(v))
 		copy(vv, v)
 		v = vv
@@ -6828,7 +6828,7 @@ func (d *decoderMsgpackIO) decodeBytesInto(out []byte, mustFit bool) (v []byte, 
 func (d *decoderMsgpackIO) rawBytes() (v []byte) {
 
 	v = d.d.nextValueBytes()
-	if d.bytes && !d.h.ZeroCopy {
+	if !(d.bytes && d.h.ZeroCopy) {
 		vv := make([]byte, len(v))
 		copy(vv, v)
 		v = vv
